@@ -1,8 +1,9 @@
 Require Extraction.
 Require Import ExtrOcamlBasic.
 From Coq Require Import NArith List.
-From HV Require Import Spec.TexEntry.
+From HV Require Import Spec.TexEntry Spec.ExtraParamsModel.
 Extraction Language OCaml.
 Extraction "c09te_model.ml" enc_bitfield dec_bitfield canonical_faces
   enc_te dec_te enc_te_greedy dec_te_greedy enc_te_u32 dec_te_u32 sub_enc_u32 sub_dec_u32
-  raw_layout raw_layout_okb raw_te_ok realize_face.
+  raw_layout raw_layout_okb raw_te_ok realize_face
+  dec_entries dec_dictcoll enc_dictcoll sub_dec_dictcoll sub_enc_dictcoll raw_entry_codec raw_dict_ok N.eqb.
